@@ -1,4 +1,4 @@
-CONSTANTS Check = {"C08", "C11", "C18"}
+CONSTANTS Check = {"C08", "C11", "C18", "C12"}
 SPECIFICATION TSpec
 POSTCONDITION Accepted
 CHECK_DEADLOCK FALSE
